@@ -13,7 +13,15 @@ DEFAULT = dict(
     nb=(1, 3), p_parallel=0.2, maxh=[50, 50, 50, None, 2, 3, 4], p_timeout=0.0, p_forward=0.12, p_sync=0.2,
     nh=(1, 6), proglen=(0, 5), ntasks=(1, 2), tasklen=(1, 6), p_wild=0.15, p_raise=0.05, p_readbus=0.04,
     p_redispatch=0.03, p_multikey=0.05, wild_dispatch=False, p_waitidle=0.1, p_parent=0.03, p_wal=0.0,
+    p_stop=0.0, p_expect=0.0, p_cancelrl=0.0, p_notimeout=0.1, p_walfault=0.0, p_payload=0.0,
 )
+
+PAYLOADS = [
+    {'text': 'héllo wörld ✓ \u2028 "quoted" \\ back\nslash', 'n': 3},
+    {'nested': {'a': [1, 2, {'b': None}], 'c': {'d': 1.5}}, 'flag': True},
+    {'items': [], 'empty': {}, 'zero': 0, 'neg': -7},
+    {'when': '2026-01-02T03:04:05+00:00', 'big': 12345678901234567890},
+]
 
 
 def gen_prog(rng, o, ty, nb, kind):
@@ -52,6 +60,16 @@ def gen_task(rng, o, nb, main):
     nslots = 0
     for _ in range(rng.randint(*o['tasklen'])):
         r = rng.random()
+        if rng.random() < o['p_expect']:
+            prog.append(['expect', rng.randrange(nb), rng.choice(['A', 'B', 'C', 'D', 'C', 'D', '*']), rng.choice([0, 0, 1, 2, 3, 4]),
+                         rng.choice([None, 5 / 128, 21 / 128, 67 / 128])])
+            continue
+        if rng.random() < o['p_stop']:
+            prog.append(['stop', rng.randrange(nb), rng.random() < 0.2])
+            continue
+        if rng.random() < o['p_cancelrl']:
+            prog.append(['cancelrl', rng.randrange(nb)])
+            continue
         if r < 0.55 or nslots == 0:
             if rng.random() < o['p_parent'] and nslots:
                 prog.append(['dispatch_with_parent', rng.randrange(nb), rng.choice('ABC'), nslots, 0])
@@ -64,8 +82,6 @@ def gen_task(rng, o, nb, main):
             prog.append(['await', rng.randrange(nslots)])
         elif r < 0.86 + o['p_waitidle']:
             prog.append(['waitidle', rng.randrange(nb)])
-        elif r < 0.86 + o['p_waitidle'] + o['p_redispatch'] or (o['p_redispatch'] > 0.2 and rng.random() < 0.5):
-            prog.append(['redispatch', rng.randrange(nslots), rng.randrange(nb)])
     if not main:
         prog.insert(0, ['sleep', rng.choice([0, 1 / 64, 3 / 64, 9 / 64])])
     return prog
@@ -80,7 +96,12 @@ def gen_core(rng, **over):
         sc['buses'].append({'parallel': rng.random() < o['p_parallel'], 'maxh': rng.choice(o['maxh']),
                             'wal': rng.random() < o['p_wal']})
     for n in RANK:
-        sc['types'][n] = {'timeout': rng.choice(TIMEOUTS) if rng.random() < o['p_timeout'] else None}
+        sc['types'][n] = {'timeout': rng.choice(TIMEOUTS) if rng.random() < o['p_timeout'] else
+                          ('none' if rng.random() < o['p_notimeout'] else None)}
+        if rng.random() < o['p_payload']:
+            sc['types'][n]['payload'] = rng.choice(PAYLOADS)
+    if o['p_walfault'] > 0:
+        sc['walfaults'] = [[i, rng.choice(['open', 'write'])] for i in range(12) if rng.random() < o['p_walfault']]
     if o['p_timeout'] > 0:
         # timeouts on parallel buses are outside the modelled envelope (see DESIGN)
         for b in sc['buses']:
@@ -148,6 +169,58 @@ def gen_chain(rng, p_timeout=0.5, p_await=0.8, p_parallel=0.0, nb=(1, 2), maxh=(
     sc['tasks'].append(main)
     if rng.random() < 0.3:
         sc['tasks'].append([['sleep', rng.choice([1 / 64, 5 / 64, 17 / 64])], ['dispatch', rng.randrange(n), rng.choice('ABCD'), 0]])
+    return sc
+
+
+def gen_stop(rng, p_cancel=0.3, **_):
+    """bus 0 is stopped (or its run-loop task cancelled) at a random moment while idle / with a backlog / with a
+    handler mid-flight; only the main task dispatches to bus 0 and only before the stop (dispatching to a bus during or
+    after stop() is outside the modelled envelope); other buses have awaiting handlers that may drain bus 0's queue"""
+    n = rng.randint(1, 3)
+    sc = {'buses': [{'parallel': rng.random() < 0.2, 'maxh': rng.choice([50, 50, None, 4]), 'wal': False} for _ in range(n)],
+          'types': {t: {'timeout': None} for t in RANK}, 'handlers': [], 'tasks': []}
+    sc['buses'][0]['parallel'] = False   # cancelling a parallel activation orphans its sibling handler tasks: not modelled
+    others = list(range(1, n))
+    for _ in range(rng.randint(1, 3)):
+        ty = rng.choice('AB')
+        prog = []
+        for _ in range(rng.randint(0, 3)):
+            r = rng.random()
+            if r < 0.5:
+                prog.append(['sleep', rng.choice(SLEEPS)])
+            elif others and r < 0.8:
+                prog.append(['dispatch', rng.choice(others), rng.choice('CD'), len(prog)])
+        kind = rng.choice(['async', 'async', 'sync'])
+        if kind == 'sync':
+            prog = [p for p in prog if p[0] != 'sleep']
+        sc['handlers'].append({'bus': 0, 'key': rng.choice([ty, ty, '*']), 'kind': kind, 'prog': prog})
+    for b in others:
+        for _ in range(rng.randint(0, 2)):
+            if rng.random() < 0.6:
+                sc['handlers'].append({'bus': b, 'key': 'C', 'kind': 'async',
+                                       'prog': [['sleep', rng.choice(SLEEPS)], ['dispatch', rng.choice(others), 'D', 0], ['sleep', rng.choice(SLEEPS)], ['await', 0]]})
+            else:
+                sc['handlers'].append({'bus': b, 'key': rng.choice('CD'), 'kind': 'async', 'prog': [['sleep', rng.choice(SLEEPS)]]})
+    main = []
+    for i in range(rng.randint(0, 6)):
+        main.append(['dispatch', 0, rng.choice('AB'), i])
+        if rng.random() < 0.2:
+            main.append(['sleep', rng.choice([0, 1 / 64, 4 / 64])])
+    if others and rng.random() < 0.6:
+        main.append(['dispatch', rng.choice(others), 'C', 10])
+    main.append(['sleep', rng.choice([0, 0, 1 / 64, 3 / 64, 9 / 64, 40 / 64])])
+    if rng.random() < p_cancel:
+        main.append(['cancelrl', 0])
+    else:
+        main.append(['stop', 0, rng.random() < 0.2])
+    main.append(['sleep', rng.choice([0, 10 / 64, 40 / 64])])
+    if others and rng.random() < 0.5:
+        main.append(['dispatch', rng.choice(others), 'C', 11])
+        if rng.random() < 0.5:
+            main.append(['await', 11])
+    sc['tasks'].append(main)
+    if others and rng.random() < 0.5:
+        sc['tasks'].append([['sleep', rng.choice([1 / 64, 5 / 64, 20 / 64])], ['dispatch', rng.choice(others), 'C', 0]])
     return sc
 
 
